@@ -1,8 +1,201 @@
-/- Model driver for C02 (stub: no ops yet). -/
+/-
+  Model driver for C02 (filters of datacollection.py / _datacollectionbase.py).  Line protocol: see
+  DrvCore.  Mathlib-free.
+
+  A period is 8 tokens  st_month st_day st_hour end_month end_day end_hour timestep leap  (the fields
+  as stored by a constructed `AnalysisPeriod`; a period that is not well-formed answers `bad-op`).
+  Continuous sources carry the values 0, 1, 2, … (position ids) unless the op sends values;
+  keyed sources carry position ids unless the op sends (key, value) pairs.
+  Answers:  `ok D <period> <n> k1 v1 k2 v2 …`  (keyed / discontinuous result),
+            `ok C <period> <n> v1 v2 …`         (continuous result),  `err:<class>`.
+-/
 import Ladybug.DrvCore
+import Ladybug.Model.Filter
+
+open Drv Cal Filter
 
 namespace DrvC02
-def handle (_toks : List String) : String := "bad-op"
+
+abbrev P := StateT (List String) Option
+
+def tok : P String := do
+  match (← get) with
+  | [] => failure
+  | t :: ts => set ts; pure t
+
+def pInt : P Int := do
+  match (← tok).toInt? with
+  | some v => pure v
+  | none => failure
+def pNat : P Nat := do
+  match (← tok).toNat? with
+  | some v => pure v
+  | none => failure
+
+def pOptInt : P (Option Int) := do
+  let t ← tok
+  if t = "N" then pure none else
+    match t.toInt? with
+    | some v => pure (some v)
+    | none => failure
+
+def pList {β : Type} (p : P β) : P (List β) := do
+  let n ← pNat
+  let rec go : Nat → List β → P (List β)
+    | 0, acc => pure acc.reverse
+    | k + 1, acc => do
+      let x ← p
+      go k (x :: acc)
+  go n []
+
+def pAP : P AP := do
+  let a ← pNat; let b ← pNat; let c ← pNat; let d ← pNat; let e ← pNat; let f ← pNat; let g ← pNat
+  let l ← pNat
+  let ap : AP := ⟨a, b, c, d, e, f, g, l != 0⟩
+  if ap.WF then pure ap else failure
+
+def pBool : P Bool := do
+  let n ← pNat
+  pure (n != 0)
+
+def pTriple : P (Nat × Nat × Nat) := do
+  let a ← pNat; let b ← pNat; let c ← pNat
+  pure (a, b, c)
+
+def pFloat : P Float := do
+  match floatBits? (← tok) with
+  | some f => pure f
+  | none => failure
+
+def pEnd : P Unit := do
+  match (← get) with
+  | [] => pure ()
+  | _ => failure
+
+def showErr : FErr → String
+  | .assert => "err:assert"
+  | .index => "err:index"
+  | .zero => "err:zero"
+
+def showAP (ap : AP) : String :=
+  s!"{ap.st_month} {ap.st_day} {ap.st_hour} {ap.end_month} {ap.end_day} {ap.end_hour} {ap.timestep} {showBool ap.leap}"
+
+def showKeyed {κ α : Type} (sk : κ → String) (sv : α → String) (r : Except FErr (Keyed κ α)) : String :=
+  match r with
+  | .error e => showErr e
+  | .ok d => s!"ok D {showAP d.ap} {d.pairs.length} " ++ joinSp (d.pairs.map fun p => sk p.1 ++ " " ++ sv p.2)
+
+def showTriple (t : Nat × Nat × Nat) : String := s!"{t.1} {t.2.1} {t.2.2}"
+
+def showRes {α : Type} (sv : α → String) (r : Except FErr (Res α)) : String :=
+  match r with
+  | .error e => showErr e
+  | .ok (.disc d) => showKeyed (toString : Nat → String) sv (.ok d)
+  | .ok (.cont c) => s!"ok C {showAP c.ap} {c.vals.length} " ++ joinSp (c.vals.map sv)
+
+/-- Continuous source with position ids as values. -/
+def idCont (ap : AP) : Except FErr (Cont Nat) := Cont.mk? ap (List.range ap.len)
+
+/-- Keyed source with position ids as values. -/
+def idKeyed {κ : Type} (ap : AP) (keys : List κ) : Keyed κ Nat := ⟨ap, keys.zip (List.range keys.length)⟩
+
+def ratOfFloat (f : Float) : Option Rat := Py.ratOfFloatBits f.toBits
+
+/-- Exact value of the float `m / 60.0` (an entry of `AnalysisPeriod.hoys`). -/
+def hoyOf (m : Nat) : Rat := (ratOfFloat (Float.ofNat m / 60.0)).getD 0
+
+/-- (exact hour, exact IEEE product hour * 60) of a requested float hour. -/
+def hourPair (h : Float) : Option (Rat × Rat) := do
+  let a ← ratOfFloat h
+  let b ← ratOfFloat (h * 60.0)
+  pure (a, b)
+
+/-- The statements the harness uses, by code:
+    0 `a > x`   1 `a % y == z`   2 `a > x and a % y == z`   3 `a < x or a > y`. -/
+def stmt (code : Nat) (x y z : Int) (a : Int) : Bool :=
+  match code with
+  | 0 => decide (x < a)
+  | 1 => Py.mod a y == z
+  | 2 => decide (x < a) && Py.mod a y == z
+  | _ => decide (a < x) || decide (y < a)
+
+def pPairs : P (List (Nat × Int)) := pList (do let k ← pNat; let v ← pInt; pure (k, v))
+
+def showN : Nat → String := toString
+def showI : Int → String := toString
+
+def run (op : String) : P String := do
+  match op with
+  | "cont_moys" =>
+    let ap ← pAP; let req ← pList pInt; pEnd
+    pure (showKeyed showN showN ((idCont ap).bind (Cont.filterByMoys req)))
+  | "cont_ap" =>
+    let ap ← pAP; let f ← pAP; pEnd
+    pure (showRes showN ((idCont ap).bind (Cont.filterByAP f)))
+  | "cont_hoys" =>
+    let ap ← pAP; let hs ← pList pFloat; pEnd
+    match hs.mapM hourPair with
+    | none => failure
+    | some hp => pure (showKeyed showN showN ((idCont ap).bind (Cont.filterByHoys hoyOf hp)))
+  | "cont_pattern" =>
+    let ap ← pAP; let pat ← pList pBool; pEnd
+    pure (showKeyed showN showN ((idCont ap).bind (Cont.filterByPattern pat)))
+  | "cont_range" =>
+    let ap ← pAP; let lo ← pOptInt; let hi ← pOptInt; let vals ← pList pInt; pEnd
+    pure (showKeyed showN showI ((Cont.mk? ap vals).bind (Cont.filterByRange lo hi)))
+  | "cont_stmt" =>
+    let ap ← pAP; let code ← pNat; let x ← pInt; let y ← pInt; let z ← pInt; let vals ← pList pInt; pEnd
+    if y = 0 then failure
+    pure (showKeyed showN showI ((Cont.mk? ap vals).bind (Cont.filterByPred (stmt code x y z))))
+  | "disc_moys" =>
+    let ap ← pAP; let keys ← pList pNat; let req ← pList pInt; pEnd
+    pure (showKeyed showN showN (Disc.filterByMoys req (idKeyed ap keys)))
+  | "disc_ap" =>
+    let ap ← pAP; let keys ← pList pNat; let f ← pAP; pEnd
+    pure (showKeyed showN showN (Disc.filterByAP f (idKeyed ap keys)))
+  | "disc_hoys" =>
+    let ap ← pAP; let keys ← pList pNat; let hs ← pList pFloat; pEnd
+    match hs.mapM hourPair with
+    | none => failure
+    | some hp => pure (showKeyed showN showN (Disc.filterByHoys (hp.map (·.2)) (idKeyed ap keys)))
+  | "keyed_pattern" =>
+    let ap ← pAP; let keys ← pList pNat; let pat ← pList pBool; pEnd
+    pure (showKeyed showN showN (Keyed.filterByPattern pat (idKeyed ap keys)))
+  | "keyed_range" =>
+    let ap ← pAP; let lo ← pOptInt; let hi ← pOptInt; let ps ← pPairs; pEnd
+    pure (showKeyed showN showI (Keyed.filterByRange lo hi ⟨ap, ps⟩))
+  | "keyed_stmt" =>
+    let ap ← pAP; let code ← pNat; let x ← pInt; let y ← pInt; let z ← pInt; let ps ← pPairs; pEnd
+    if y = 0 then failure
+    pure (showKeyed showN showI (Keyed.filterByPred (stmt code x y z) ⟨ap, ps⟩))
+  | "keys" =>
+    let ap ← pAP; let keys ← pList pNat; let req ← pList pNat; pEnd
+    pure (showKeyed showN showN (Keyed.filterByKeys req (idKeyed ap keys)))
+  | "daily_ap" =>
+    let ap ← pAP; let keys ← pList pNat; let f ← pAP; pEnd
+    pure (showKeyed showN showN (dailyFilterByAP f (idKeyed ap keys)))
+  | "monthly_ap" =>
+    let ap ← pAP; let keys ← pList pNat; let f ← pAP; pEnd
+    pure (showKeyed showN showN (monthlyFilterByAP f (idKeyed ap keys)))
+  | "mph_keys" =>
+    let ap ← pAP; let keys ← pList pTriple; let req ← pList pTriple; pEnd
+    pure (showKeyed showTriple showN (Keyed.filterByKeys req (idKeyed ap keys)))
+  | "mph_ap" =>
+    let ap ← pAP; let keys ← pList pTriple; let f ← pAP; pEnd
+    pure (showKeyed showTriple showN (mphFilterByAP f (idKeyed ap keys)))
+  | "ap_subset" =>
+    let ap ← pAP; let f ← pAP; pEnd
+    pure ("ok " ++ showAP (apSubset ap f))
+  | _ => failure
+
+def handle (toks : List String) : String :=
+  match toks with
+  | [] => "bad-op"
+  | op :: rest =>
+    match (run op).run rest with
+    | some (s, _) => s
+    | none => "bad-op"
+
 end DrvC02
 
 def main : IO Unit := Drv.run DrvC02.handle
